@@ -121,29 +121,27 @@ Proof.
 Qed.
 
 (* the identity value of a well-keyed record, as the model reads it *)
-Lemma id_val_get : forall K x v, plain_leaf K = true -> wf_doc x = true -> untagged x = true ->
+Lemma id_val_get : forall K x v, plain_leaf K = true -> wf_doc x = true ->
   id_val (leaf_value K) x = Some v ->
   exists i kvs iv, x = NMap i kvs /\ map_get K kvs = Some (NLeaf iv v) /\ tag iv = None.
 Proof.
-  intros K x v PK Hw Hu H. destruct x as [|i kvs| |]; simpl in H; try discriminate.
-  destruct (assoc_key (leaf_value K) kvs) as [[iv w| | |]|] eqn:A; try discriminate. inversion H; subst.
+  intros K x v PK Hw H. destruct x as [|i kvs| |]; simpl in H; try discriminate.
+  destruct (assoc_key (leaf_value K) kvs) as [[iv w| | |]|] eqn:A; try discriminate.
+  destruct (tag iv) eqn:T; try discriminate. inversion H; subst.
   destruct (wf_map_inv _ _ Hw) as [Kp _].
-  exists i, kvs, iv. split; auto. split.
-  - rewrite (map_get_assoc _ _ Kp PK). exact A.
-  - destruct (assoc_key_some_in _ _ _ A) as [kn Hin].
-    pose proof (untagged_map_inv _ _ Hu (kn, NLeaf iv v) Hin) as U. simpl in U.
-    destruct (tag iv); auto; discriminate.
+  exists i, kvs, iv. split; auto. split; auto.
+  rewrite (map_get_assoc _ _ Kp PK). exact A.
 Qed.
 
 Lemma key_match_id : forall c r K le ri re u v,
   c_keys c = [] -> plain_leaf K = true ->
-  wf_doc le = true -> untagged le = true -> wf_doc re = true -> untagged re = true ->
+  wf_doc le = true -> wf_doc re = true ->
   id_val (leaf_value K) le = Some u -> id_val (leaf_value K) re = Some v ->
   key_match c r K le (ri, re) = py_eq v u.
 Proof.
-  intros c r K le ri re u v Hc PK Wl Ul Wr Ur Il Ir.
-  destruct (id_val_get _ _ _ PK Wl Ul Il) as [il [lkvs [iu [-> [Gl Tu]]]]].
-  destruct (id_val_get _ _ _ PK Wr Ur Ir) as [ir [rkvs [iv [-> [Gr Tv]]]]].
+  intros c r K le ri re u v Hc PK Wl Wr Il Ir.
+  destruct (id_val_get _ _ _ PK Wl Il) as [il [lkvs [iu [-> [Gl Tu]]]]].
+  destruct (id_val_get _ _ _ PK Wr Ir) as [ir [rkvs [iv [-> [Gr Tv]]]]].
   unfold key_match. rewrite (aoh_diff_key_nokeys _ _ _ _ Hc).
   assert (E : (let '(alt, is_user) := match NMap ir rkvs with
                                       | NMap _ (kv :: _) => (fst kv, false)
@@ -159,9 +157,9 @@ Proof.
     simpl in *. inversion Gl; inversion Gr; subst. simpl. unfold leaf_eq, is_tagged. rewrite Tu, Tv. reflexivity.
 Qed.
 
-(* all elements of a list are well-formed untagged records holding an identity value *)
+(* all elements of a list are well-formed records holding an identity value *)
 Definition keyed_elems (Kv : pyval) (l : list (nat * node)) : Prop :=
-  forall p, In p l -> wf_doc (snd p) = true /\ untagged (snd p) = true /\
+  forall p, In p l -> wf_doc (snd p) = true /\
                       id_val Kv (snd p) = Some (id_or_none Kv (snd p)).
 
 Lemma sync_key_go_ksync : forall c r K lhs red,
@@ -170,16 +168,16 @@ Lemma sync_key_go_ksync : forall c r K lhs red,
   sync_key_go c r K lhs red = ksync (id_or_none (leaf_value K)) lhs red.
 Proof.
   intros c r K lhs. induction lhs as [|[li le] rest IH]; simpl; intros red Hc PK Kl Kr; auto.
-  destruct (Kl (li, le) (or_introl eq_refl)) as [Wl [Ul Il]]. simpl in Wl, Ul, Il.
-  destruct (id_val_get _ _ _ PK Wl Ul Il) as [il [lkvs [iu [El [Gl Tu]]]]].
+  destruct (Kl (li, le) (or_introl eq_refl)) as [Wl Il]. simpl in Wl, Il.
+  destruct (id_val_get _ _ _ PK Wl Il) as [il [lkvs [iu [El [Gl Tu]]]]].
   assert (Hk : (match node_map_items le with Some lkvs0 => map_has K lkvs0 | None => false end) = true).
   { rewrite El. simpl. unfold map_has. rewrite Gl. reflexivity. }
   rewrite Hk. simpl.
   assert (X : extract_first (key_match c r K le) red =
               extract_first (fun p => py_eq (ida (id_or_none (leaf_value K)) p) (id_or_none (leaf_value K) le)) red).
   { apply extract_first_ext. intros [ri re] Hin.
-    destruct (Kr (ri, re) Hin) as [Wr [Ur Ir]]. simpl in Wr, Ur, Ir.
-    apply (key_match_id c r K le ri re _ _ Hc PK Wl Ul Wr Ur Il Ir). }
+    destruct (Kr (ri, re) Hin) as [Wr Ir]. simpl in Wr, Ir.
+    apply (key_match_id c r K le ri re _ _ Hc PK Wl Wr Il Ir). }
   rewrite X. clear X.
   destruct (extract_first (fun p => py_eq (ida (id_or_none (leaf_value K)) p) (id_or_none (leaf_value K) le)) red)
     as [[[ri re] red']|] eqn:Ex.
